@@ -747,6 +747,34 @@ pub fn minimise<P: Prop>(
             }
         }
     }
+    // Phase 2: simplify the schedule itself. Walk over the context switches
+    // and try to let the previous task run one decision longer instead; keep
+    // the change when the same clause still fails. (The replay policy falls
+    // back deterministically when a recorded task is not runnable.)
+    if best_sched.kind == "replay" {
+        let arc = Arc::new(best_case.clone());
+        let mut choices = best_sched.choices.clone();
+        let mut i = 1;
+        while i < choices.len() && spent < budget {
+            if choices[i] != choices[i - 1] {
+                let mut cand = choices.clone();
+                cand[i] = cand[i - 1];
+                let out = exec_case(p, &arc, &SchedSpec::replay(cand), ctx, false);
+                spent += 1;
+                let switches = |c: &[u16]| c.windows(2).filter(|w| w[0] != w[1]).count();
+                if out.harness_error.is_none()
+                    && out.violations.iter().any(|v| v.clause == clause)
+                    && switches(&out.choices) < switches(&choices)
+                {
+                    choices = out.choices.clone();
+                    best_viol = out.violations;
+                    continue; // re-examine the same position
+                }
+            }
+            i += 1;
+        }
+        best_sched = SchedSpec::replay(choices);
+    }
     // Put the matching clause first.
     best_viol.sort_by_key(|v| v.clause != clause);
     (best_case, best_sched, best_viol, spent)
